@@ -1289,6 +1289,31 @@ impl Interp {
                             let f = self.eval(&args[0].0)?;
                             return Ok(V::Adapt(Arc::new((k.clone(), cv, f))));
                         }
+                        if !matches!(cv, V::Map(_)) && k == "zip" && args.len() == 1 {
+                            // pairs up the two sequences; the receiver is pulled first in every step. Only
+                            // judged when at most one side can have effects (the other is a plain container),
+                            // where pulling order between the sides cannot be observed
+                            let other = self.eval(&args[0].0)?;
+                            let plain = |v: &V| matches!(v, V::List(_) | V::Tuple(_) | V::Range(..) | V::Str(_));
+                            if !plain(&cv) && !plain(&other) {
+                                return unjudged("zip of two effectful iterators");
+                            }
+                            if plain(&cv) {
+                                let xs = self.iterate(&cv)?;
+                                // the right side is only pulled while the left one has elements
+                                let ys = self.iterate(&other)?;
+                                if ys.len() > xs.len() {
+                                    return unjudged("zip with a longer effectful right side");
+                                }
+                                return Ok(vtuple(xs.into_iter().zip(ys).map(|(a, b)| vtuple(vec![a, b])).collect()));
+                            }
+                            let ys = self.iterate(&other)?;
+                            let xs = self.iterate(&cv)?;
+                            if xs.len() > ys.len() + 1 {
+                                return unjudged("zip with a much longer effectful left side");
+                            }
+                            return Ok(vtuple(xs.into_iter().zip(ys).map(|(a, b)| vtuple(vec![a, b])).collect()));
+                        }
                         if !matches!(cv, V::Map(_)) && k == "fold" && args.len() == 2 {
                             let mut acc = self.eval(&args[0].0)?;
                             let f = self.eval(&args[1].0)?;
